@@ -5,6 +5,7 @@ import MocModel.Drv.Http
 import MocModel.Drv.Cache
 import MocModel.Drv.Handlers
 import MocModel.Drv.Conc
+import MocModel.Drv.Codec
 open Moc.Drv
 
 def handlers : List (String × Handler) := [
@@ -15,7 +16,8 @@ def handlers : List (String × Handler) := [
   ("C20", HttpD.handler),
   ("cache", CacheD.handler),
   ("C16", HandlersD.handler),
-  ("C15", ConcD.handler)
+  ("C15", ConcD.handler),
+  ("codec", CodecD.handler)
 ]
 
 def main (args : List String) : IO UInt32 := do
